@@ -358,9 +358,11 @@ def _run(ctx, work):
     for c, d in sorted(surfaces.items()):
         ss = list(d.values())
         rng.shuffle(ss)
-        ss = ss[:ctx.pick(40, 150)]
+        ss = ss[:ctx.pick(40, 100)]
         case = built[c - 1]
-        levels = (0, 1, 2) if (not ctx.quick() or case['name'] in TEMPLATES) else (c % 3,)
+        # every level for the templates; generated programs rotate through the levels (the thorough tier takes more
+        # programs and surfaces instead: all levels for all of them took hours)
+        levels = (0, 1, 2) if case['name'] in TEMPLATES else (c % 3,)
         for O in levels:
             chunk = []
             for s in ss:
